@@ -248,6 +248,7 @@ structure PathCommit (w : GroupWorld) (sender : Nat) (e : Edits) (nl : Leaf) (fr
   welcome : tr.welcome = (added.zip e.adds).map fun x =>
       welcomeFor (some o) (pathSealsOf o (.fresh w.epoch)) sender
         (.epoch (.initOf cm.secret) (pathN (countSome o.pathKeys) (.fresh w.epoch)) psk ctx) x.1 x.2
+  ext : tr.ext = none
 
 theorem commitPath_inv {w : GroupWorld} {sender : Nat} {e : Edits} {nl : Leaf} {fresh : Nat} {psk : Sec}
     {ctx : Nat} {deliverTo : List Nat} {w' : GroupWorld} {tr : Transcript} {cm : Member}
@@ -276,7 +277,7 @@ theorem commitPath_inv {w : GroupWorld} {sender : Nat} {e : Edits} {nl : Leaf} {
   have hteq' : t' = o.tree := by simpa using hteq
   exact ⟨o, ms, js,
     { enc := ho, recvTree := hteq' ▸ ht', members := hms, joiners := hjs,
-      world := rfl, seals := rfl, welcome := rfl }⟩
+      world := rfl, seals := rfl, welcome := rfl, ext := rfl }⟩
 
 /-- everything a successful commit without a path did -/
 structure NoPathCommit (w : GroupWorld) (sender : Nat) (e : Edits) (psk : Sec)
@@ -288,6 +289,7 @@ structure NoPathCommit (w : GroupWorld) (sender : Nat) (e : Edits) (psk : Sec)
   seals : tr.pathSeals = []
   welcome : tr.welcome = (added.zip e.adds).map fun x =>
       welcomeFor none [] sender (.epoch (.initOf cm.secret) .zero psk ctx) x.1 x.2
+  ext : tr.ext = none
 
 theorem commitNoPath_inv {w : GroupWorld} {sender : Nat} {e : Edits} {psk : Sec}
     {ctx : Nat} {deliverTo : List Nat} {w' : GroupWorld} {tr : Transcript} {cm : Member}
@@ -301,6 +303,76 @@ theorem commitNoPath_inv {w : GroupWorld} {sender : Nat} {e : Edits} {psk : Sec}
   rename_i js hjs
   simp only [Except.ok.injEq, Prod.mk.injEq] at h
   obtain ⟨rfl, rfl⟩ := h
-  exact ⟨js, { joiners := hjs, world := rfl, seals := rfl, welcome := rfl }⟩
+  exact ⟨js, { joiners := hjs, world := rfl, seals := rfl, welcome := rfl, ext := rfl }⟩
+
+/-! ### inversion of `externalCommit` -/
+
+/-- the new epoch secret of an external commit: the KEM shared secret as init secret, the end of the joiner's
+path-secret chain as commit secret -/
+def extSecret (w : GroupWorld) (o : EncapOut) (psk : Sec) (ctx : Nat) : Sec :=
+  .epoch (.ext w.epoch) (pathN (countSome o.pathKeys) (.fresh w.epoch)) psk ctx
+
+/-- the external committer as a member of the new epoch -/
+def extJoiner (w : GroupWorld) (nl : Leaf) (self : Nat) (o : EncapOut) (psk : Sec) (ctx : Nat) : Member :=
+  { id := nl.ident, priv := ⟨self, o.slots⟩, epoch := w.epoch + 1, secret := extSecret w o psk ctx }
+
+/-- everything a successful external commit did -/
+structure ExtCommit (w : GroupWorld) (gi : Nat) (remove : Option Nat) (L0 nl : Leaf) (fresh : Nat) (psk : Sec)
+    (ctx : Nat) (deliverTo : List Nat) (w' : GroupWorld) (tr : Transcript)
+    (gm : Member) (t1 : Tree) (jl : Nat) (t1x : Tree) (o : EncapOut) (ms : List Member) : Prop where
+  psk_ok : psk.isPskInput = true
+  hgi : w.sender? gi = some gm
+  edit : ∃ a, batchEdit w.tree (extEdits remove) = .ok (a, t1)
+  add : addLeaf t1 L0 0 = .ok (jl, t1x)
+  noconf : conflicts t1 nl = false
+  enc : encap t1x jl nl [] fresh = .ok o
+  recvTree : applyUpdatePath t1x jl nl o.pathKeys = .ok o.tree
+  members : mapE (advExt w remove deliverTo t1x o (pathSealsOf o (.fresh w.epoch)) jl psk ctx gm.secret)
+      w.members = .ok ms
+  world : w' = { tree := o.tree, epoch := w.epoch + 1, members := ms ++ [extJoiner w nl jl o psk ctx] }
+  seals : tr.pathSeals = pathSealsOf o (.fresh w.epoch)
+  welcome : tr.welcome = []
+  ext : tr.ext = some (gm.secret, .ext w.epoch)
+
+theorem externalCommit_inv {w : GroupWorld} {gi : Nat} {remove : Option Nat} {L0 nl : Leaf} {fresh : Nat}
+    {psk : Sec} {ctx : Nat} {deliverTo : List Nat} {w' : GroupWorld} {tr : Transcript}
+    (h : w.externalCommit gi remove L0 nl fresh psk ctx deliverTo = .ok (w', tr)) :
+    ∃ gm t1 self t1x o ms,
+      ExtCommit w gi remove L0 nl fresh psk ctx deliverTo w' tr gm t1 self t1x o ms := by
+  unfold GroupWorld.externalCommit at h
+  cases hpsk : psk.isPskInput with
+  | false => simp [hpsk] at h
+  | true =>
+    simp only [hpsk, Bool.not_true, Bool.false_eq_true, if_false] at h
+    split at h
+    · cases h
+    rename_i gm hgm
+    split at h
+    · cases h
+    rename_i a t1 hb
+    split at h
+    · cases h
+    rename_i self t1x hadd
+    split at h
+    · cases h
+    rename_i hconf
+    split at h
+    · cases h
+    rename_i o ho
+    split at h
+    · cases h
+    rename_i t' ht'
+    split at h
+    · cases h
+    rename_i hteq
+    split at h
+    · cases h
+    rename_i ms hms
+    simp only [Except.ok.injEq, Prod.mk.injEq] at h
+    obtain ⟨rfl, rfl⟩ := h
+    have hteq' : t' = o.tree := by simpa using hteq
+    exact ⟨gm, t1, self, t1x, o, ms,
+      { psk_ok := hpsk, hgi := hgm, edit := ⟨a, hb⟩, add := hadd, noconf := by simpa using hconf, enc := ho,
+        recvTree := hteq' ▸ ht', members := hms, world := rfl, seals := rfl, welcome := rfl, ext := rfl }⟩
 
 end MlsVerif.Group
